@@ -22,7 +22,7 @@ CAP_E = 3.0e4       # 10 x the C01 constant A: the floor never exceeds CAP_E * E
 MIN_COUNTERS = dict(quick={'honesty_asserted:Derivative': 1200, 'honesty_asserted:Gradient': 150,
                            'honesty_asserted:Jacobian': 150, 'honesty_asserted:Hessdiag': 150,
                            'honesty_asserted:Hessian': 150, 'record_asserted': 3000,
-                           'estimate_decided_the_case': 100},
+                           'estimate_decided_the_case': 100, 'stationary_point_entries_asserted': 60},
                     thorough={'honesty_asserted:Derivative': 60000})
 RULE = ('Derivative cases as in C01 (random expression programs x points x every (method, n, order) cell x step '
         'specifications) plus Gradient / Jacobian / Hessdiag / Hessian on separable-plus-cross families F(x) = sum_k a_ik '
@@ -75,6 +75,7 @@ def cases(rng, tier, shard, nshards):
                        order=int(rng.choice([2, 4])) if cls != 'Hessian' else None,
                        g=[int(v) for v in rng.integers(0, len(G_PROGS), size=dim)],
                        x=[float(np.round(v, 4)) for v in rng.uniform(-2, 2, size=dim)],
+                       stationary=[bool(v) for v in rng.random(size=dim) < 0.15],
                        m=int(rng.integers(1, 4)), beta=float(np.round(rng.uniform(-2, 2), 3)),
                        seed=int(rng.integers(0, 2 ** 31)), step=D.draw_step_spec(rng, method, 2 if cls in ('Hessdiag', 'Hessian') else 1))
             continue
@@ -205,12 +206,17 @@ def run_derivative(case, ctx):
         floor = min(floor_uncapped, CAP_E * m.E / C_FLOOR)
         if case['step'].get('hostile'):
             ctx.count('hostile_tail_elements_in_scope')
+        if case.get('stationary'):
+            ctx.count('stationary_point_entries_asserted')
         steps_all = res['obs'].get('steps') or []
         honest(ctx, 'Derivative', m.err, est_e, floor, ('Derivative', method, n, order, prog),
                dict(cls='Derivative', method=method, n=n, order=order, full_window=bool(m.full_window),
                     chosen_step_beyond_validity_radius=bool(m.chosen_beyond_validity),
                     majority_of_table_rows_collapsed=bool(m.frac_collapsed >= 0.5),
                     error_explained_by_rounding_at_chosen_step=bool(m.err <= 10 * C_FLOOR * floor_uncapped),
+                    # a single difference quotient (nothing to difference): the placeholder is (|v| eps + h) * 12.7,
+                    # never below the step itself
+                    single_row_estimate_below_its_step=bool(res['obs'].get('rich_m_old') == 1 and est_e < abs(fs_e)),
                     operators=sorted(X.operators(tree)), step_kind=case['step']['kind']),
                dict(program=prog, x=x_e, value=complex(v), exact=complex(m.exact), final_step=fs_e, W=m.W,
                     nsteps=m.nsteps, rho_valid=m.rho_valid, lam=m.lam))
@@ -226,6 +232,9 @@ def run_multi(case, ctx):
     cls, dim, method = case['cls'], case['dim'], case['method']
     rng = np.random.default_rng(case['seed'])
     gtrees = [G_PROGS[i] for i in case['g']]
+    # some coordinates sit exactly on a stationary point of their g_k (exact partial derivative 0, truncation error not 0)
+    gtrees = [D.subst(t, D.stationary_inner(xk)) if st else t
+              for t, st, xk in zip(gtrees, case.get('stationary') or [False] * dim, case['x'])]
     gfun = [X.compile_np(t) for t in gtrees]
     x = np.array(case['x'], dtype=float)
     beta = case['beta'] if dim > 1 else 0.0
@@ -313,11 +322,14 @@ def run_multi(case, ctx):
         if not np.isfinite(v.real) or h <= 0:
             continue
         floor = EPS * lam * math.factorial(nder) * fmag / (max(h, 1.0) if cancel_free else h) ** nder
+        if nder == 1 and (case.get('stationary') or [False] * dim)[ix[-1] if ix else 0]:
+            ctx.count('stationary_point_entries_asserted')
         honest(ctx, cls, err, float(est[ix]), floor, (cls, method, case['order'], tuple(case['g']), ix),
                dict(cls=cls, method=method, n=nder, order=case['order'], full_window=True,
                     # every g_k of the family is analytic within radius >= 1 of a real point (nearest singularities +-i,
-                    # +-i pi/2); a reported final step above 1 lies beyond the validity radius of its Taylor series
-                    chosen_step_beyond_validity_radius=bool(h > 1.0),
+                    # +-i pi/2); a reported final step above 1 lies beyond the validity radius of its Taylor series (0.7 when a
+                    # coordinate goes through t -> x0 + d^2 + d^3, which maps |d| <= 0.75 into the unit disc)
+                    chosen_step_beyond_validity_radius=bool(h > (0.7 if any(case.get('stationary') or []) else 1.0)),
                     operators=sorted(set().union(*[X.operators(t) for t in gtrees])), step_kind=case['step']['kind']),
                dict(program=[X.to_str(t) for t in gtrees], x=case['x'], value=v, exact=ex, final_step=h, entry=list(ix)))
     if len(ctx.samples) < 5:
@@ -340,7 +352,7 @@ def classify(wit):
     if f.get('method') == 'multicomplex' and set(f.get('operators') or []) & {'powi', 'powr', 'div', 'arctan', 'arcsin',
                                                                               'arcsinh', 'arctanh', 'tan', 'tanh', 'sqrt'}:
         return 'multicomplex-log-formula-cancellation'
-    if f.get('cls') == 'Derivative' and f.get('full_window') is False:
+    if f.get('cls') == 'Derivative' and f.get('full_window') is False and not f.get('single_row_estimate_below_its_step'):
         return 'estimate-without-extrapolation-is-a-placeholder'
     if f.get('chosen_step_beyond_validity_radius'):
         return 'selector-picked-steps-beyond-validity-radius'
